@@ -198,6 +198,14 @@ class Machine:
         self.keep = []       # keep real objects alive (id() stability)
         self.kept = {}       # id -> (real, keys(), values(), items()) views
 
+    def uq_class(self):
+        """The user's quantity class of this run: a class of its own, so
+        that whatever an earlier run in this process registered with some
+        encoder cannot be mistaken for it."""
+        if getattr(self, "_uq_cls", None) is None:
+            self._uq_cls = type("UserQty", (UserQty,), {})
+        return self._uq_cls
+
     # -- construction of values from specs
     def register(self, id_, real, mc):
         self.reg[id_] = (real, mc)
@@ -255,7 +263,7 @@ class Machine:
                 r, m = self.build(spec["q"][0])
                 return Quantity(r, spec["q"][1]), ("Q", m, spec["q"][1])
             if "uq" in spec:
-                return (UserQty(spec["uq"][0], spec["uq"][1]),
+                return (self.uq_class()(spec["uq"][0], spec["uq"][1]),
                         ("UQ", spec["uq"][0], spec["uq"][1]))
             if "empty" in spec:
                 from pvl.parser import EmptyValueAtLine
@@ -276,9 +284,9 @@ class Machine:
         if type(rv).__name__ == "EmptyValueAtLine":
             return False
         if isinstance(mv, tuple) and len(mv) == 3 and mv[0] == "UQ":
-            return (type(rv) is UserQty and int(rv) == mv[1]
+            return (isinstance(rv, UserQty) and int(rv) == mv[1]
                     and rv.units == mv[2])
-        if type(rv) is UserQty:
+        if isinstance(rv, UserQty):
             return False
         if isinstance(mv, tuple) and len(mv) == 3 and mv[0] == "Q":
             return (type(rv) is Quantity and self.same(rv.value, mv[1])
@@ -314,7 +322,7 @@ class Machine:
             return tuple(self.model_of(x) for x in rv)
         if isinstance(rv, (set, frozenset)):
             return frozenset(rv)
-        if type(rv) is UserQty:
+        if isinstance(rv, UserQty):
             return ("UQ", int(rv), rv.units)
         if type(rv) is Quantity:
             return ("Q", self.model_of(rv.value), rv.units)
@@ -896,6 +904,10 @@ class Machine:
                 self.register_deep(c, cm, set())
         except Problem as p:
             self.fail(p.cls, p.detail)
+        except Exception as e:  # noqa: BLE001
+            # the copy exists but cannot even be iterated
+            self.fail("copy-unusable", "%s of #%s: reading the copy raised "
+                      "%s: %s" % (mech, mc.id, type(e).__name__, e))
         if not self.problems and not shallow:
             shared = mutable_ids(real) & mutable_ids(c)
             if shared:
